@@ -3099,9 +3099,15 @@ func wholeUse(t *Term, obj types.Object) bool {
 	if t.K == 'v' {
 		return t.Obj == obj
 	}
+	if t.K == 'o' && strings.HasPrefix(t.Name, "called:") {
+		return false // "this call happened" is history, not a statement about the current value
+	}
 	for i, a := range t.Args {
 		if t.K == 'f' && i == 0 && a.K == 'v' && a.Obj == obj {
 			continue
+		}
+		if t.K == 'o' && t.Name == "&" && len(t.Args) == 1 && a.K == 'v' && a.Obj == obj {
+			continue // the address of the variable does not change
 		}
 		if wholeUse(a, obj) {
 			return true
